@@ -451,6 +451,32 @@ def dm_linear(scn, v, o):
     return out
 
 
+def dm_choice(scn, v, o):
+    """Which resolution DataMixin builds: 1-D data with a dx column gets the
+    pinhole average of ALL its points as soon as one width is positive (zero
+    widths are handled inside Pinhole1D), and no smearing only when every
+    width is zero; the constructor receives the full q and dx vectors."""
+    if not _ok(o):
+        return []
+    dtype, res = scn.cfg["dtype"], o["res"]
+    if dtype == "perfect":
+        return [Rel("true", isinstance(res, R.Perfect1D), "data without resolution columns -> Perfect1D")]
+    if dtype == "slit":
+        return [Rel("true", isinstance(res, R.Slit1D), "dxl/dxw data -> Slit1D")]
+    if dtype != "pinhole":
+        return []
+    q, s = v["q"], v["s"]
+    some = g_or(*[x > 0 for x in s])
+    out = [Rel("true", isinstance(res, R.Pinhole1D), "some dx > 0 -> Pinhole1D for the whole data set", when=some),
+           Rel("true", isinstance(res, R.Perfect1D), "all dx == 0 -> Perfect1D", when=g_not(some))]
+    if isinstance(res, R.Pinhole1D):
+        out.append(Rel("true", len(res.q) == len(q) and len(res.q_width) == len(q), "Pinhole1D gets every data point"))
+        out += [Rel("eq", res.q[i], q[i], "Pinhole1D gets q[%d]" % i) for i in range(min(len(q), len(res.q)))]
+        out += [Rel("eq", res.q_width[i], s[i], "Pinhole1D gets dx[%d] (zeros included)" % i)
+                for i in range(min(len(q), len(res.q_width)))]
+    return out
+
+
 class _null:
     def __enter__(self):
         return self
@@ -473,7 +499,8 @@ ORACLES = {
     "pinhole2d": [("defined", ctor_defined), ("cloud-shape-and-weights", p2_shape), ("apply", p2_apply)],
     "slit2d": [("defined", ctor_defined)],
     "perfect1d": [("defined", ctor_defined), ("identity", perfect_id)],
-    "direct-model": [("defined", ctor_defined), ("scale-background-linear", dm_linear)],
+    "direct-model": [("defined", ctor_defined), ("resolution-choice", dm_choice),
+                     ("scale-background-linear", dm_linear)],
 }
 
 
@@ -829,7 +856,8 @@ def configs(chk):
     jobs.append(("slit2d", {"n": 2}))
     jobs.append(("perfect1d", {"n": 3}))
     for dtype in ("perfect", "pinhole", "slit", "oriented", "Iqxy"):
-        for n in ((1, 2) if dtype not in ("pinhole", "slit") or not quick else (1,)):
+        # pinhole needs two points: zero and positive dx mixed in one data set
+        for n in ((1, 2) if dtype != "slit" or not quick else (1,)):
             jobs.append(("direct-model", {"dtype": dtype, "n": n}))
     return jobs
 
